@@ -98,39 +98,53 @@ def write_evidence(pid, tier, seed, coverage, assumptions, wall, violations, ext
     os.replace(tmp, os.path.join(EVIDENCE_DIR, pid + ".json"))
 
 
-def prepare_tree(slot, plan, native=False, entry=None, vals_file=None):
-    slot.sync()
+def prepare_tree(slot, plan, native=False, entries=None):
+    """Sync /repo's working tree into the slot and inject the harness modules.
+    entries (native only): {modname: [(idx, fn, vals_file), ...]}"""
+    tree = slot.sync(native=native)
     for chk in plan.source_checks:
-        chk(slot.tree)
+        chk(tree)
+    os.makedirs(slot.gen, exist_ok=True)
     for fn, text in plan.gen.items():
-        with open(os.path.join(slot.gen, fn), "w") as f:
-            f.write(text)
+        gp = os.path.join(slot.gen, fn)
+        if not (os.path.exists(gp) and open(gp).read() == text):
+            with open(gp, "w") as f:
+                f.write(text)
     for (rel, hf, mod, _mp) in plan.injections:
-        e = entry if (entry and entry[0] == mod) else None
-        core.inject(slot.tree, rel, hf, mod, native=native, entry=e[1] if e else None, vals_file=vals_file)
-    cwd, pkg, crate_dir, crate_name = slot.tree, plan.package, slot.tree, plan.crate_name
+        core.inject(tree, rel, hf, mod, native=native, entries=(entries or {}).get(mod))
+    cwd, pkg, crate_dir, crate_name = tree, plan.package, tree, plan.crate_name
     if plan.mode == "slice":
         from . import slices
-        cwd = slices.build_slice(slot, plan.slice, native=native)
+        cwd = slices.build_slice(slot, tree, plan.slice, native=native)
         pkg, crate_dir, crate_name = None, cwd, plan.slice["name"]
     elif plan.mode == "ext":
-        cwd = os.path.join(slot.tree, plan.slice["subdir"])
+        cwd = os.path.join(tree, plan.slice["subdir"])
         pkg, crate_dir, crate_name = plan.package, cwd, plan.crate_name
     return cwd, pkg, crate_dir, crate_name
 
 
-def do_replay(slot, plan, h, vals, release=False):
-    """Native replay of harness h with the solver's concrete values against the real code."""
+def do_replays(slot, plan, items, release=False):
+    """Native replay of [(h, vals)] against the real code: the same harness bodies, compiled without
+    cfg(kani), with kani::any() answered from the solver's concrete values.  One build, N runs.
+    Returns [(verdict, msg)] aligned with items."""
     rdir = os.path.join(slot.dir, "replay")
     shutil.rmtree(rdir, ignore_errors=True)
     os.makedirs(rdir)
-    vf = os.path.join(rdir, "vals.rs")
-    core.write_vals_file(vf, vals)
-    modname = h.modpath.split("::")[-1]
-    cwd, pkg, crate_dir, crate_name = prepare_tree(slot, plan, native=True, entry=(modname, h.fn), vals_file=vf)
+    entries = {}
+    keys = []
+    for i, (h, vals) in enumerate(items):
+        vf = os.path.join(rdir, "vals%d.rs" % i)
+        core.write_vals_file(vf, vals)
+        mod = h.modpath.split("::")[-1]
+        entries.setdefault(mod, []).append((i, h.fn, vf))
+        keys.append((mod, i))
     os.environ["VK_GEN_DIR"] = slot.gen
-    verdict, msg = core.native_replay(crate_dir, crate_name, rdir, release=release)
-    return verdict, msg
+    cwd, pkg, crate_dir, crate_name = prepare_tree(slot, plan, native=True, entries=entries)
+    mods = [m for (_r, _h, m, _p) in plan.injections]
+    binp, err = core.native_build(crate_dir, crate_name, rdir, mods, release=release)
+    if binp is None:
+        return [("ERROR", "native build failed: " + err[-1500:])] * len(items)
+    return [core.native_run(binp, mod, i) for (mod, i) in keys]
 
 
 def save_replay(pid, h, vals, failed, verdicts, plan):
@@ -170,6 +184,8 @@ def run_check(pid, tier, seed, keep=False, only=None):
         if meta["build_failed"]:
             raise Inconclusive("kani build failed: " + meta["text_tail"][-1500:])
         known = load_known()
+        failing = []
+        not_replayed = []
         solver_s = 0.0
         checks_total = 0
         nontrivial = 0
@@ -198,37 +214,53 @@ def run_check(pid, tier, seed, keep=False, only=None):
                 covered.update(descs)
             new = [c for c in r.failed_checks if c not in covered and "unwinding assertion" not in c]
             for k, descs in hits:
-                line = "KNOWN-FINDING: property=%s %s [harness %s: %s]" % (pid, k["what"], h.fn, "; ".join(descs))
+                line = "KNOWN-FINDING: property=%s %s" % (pid, k["what"])
                 if line not in known_lines:
                     known_lines.append(line)
-            if not new:
-                continue
-            log("%s FAILED: %s — extracting counterexample" % (h.fn, new))
-            vals, plog = core.concrete_values(cwd, h.full, slot.gen, slot.out, package=pkg, extra=plan.kani_extra)
-            if vals is None:
-                inconclusive.append("%s: failed (%s) but no concrete counterexample could be extracted" % (h.fn, new))
-                continue
-            verdicts = {}
-            v, msg = do_replay(slot, plan, h, vals, release=False)
-            verdicts["dev"] = [v, msg]
-            if v == "PASSED" or plan.native_release:
-                v2, msg2 = do_replay(slot, plan, h, vals, release=True)
-                verdicts["release"] = [v2, msg2]
-            reproduced = any(x[0] == "REPRODUCED" for x in verdicts.values())
-            if reproduced and plan.public_replay:
-                pv, pmsg = plan.public_replay(slot, h, vals)
-                verdicts["public_api"] = [pv, pmsg]
-                if pv == "PASSED":
-                    reproduced = False
-            # re-prepare the kani tree for any further counterexample extraction
-            cwd, pkg, crate_dir, crate_name = prepare_tree(slot, plan)
-            if reproduced:
-                path = save_replay(pid, h, vals, new, verdicts, plan)
-                print("VIOLATION property=%s replay=%s" % (pid, path), flush=True)
-                log("   " + json.dumps(verdicts))
-                violations += 1
-            else:
-                inconclusive.append("%s: solver counterexample did not reproduce natively: %s" % (h.fn, verdicts))
+            if new:
+                failing.append((h, new))
+        # ---- counterexamples: extract (one batched solver run), replay natively (one build), report ----
+        # at most MAX_REPLAY counterexamples are replayed per run, one per distinct (family, failed check) first
+        MAX_REPLAY = int(os.environ.get("VK_MAX_REPLAY", "4"))
+        seen, chosen, rest = set(), [], []
+        for h, new in failing:
+            key = (h.family, tuple(sorted(new)))
+            (chosen if key not in seen else rest).append((h, new))
+            seen.add(key)
+        chosen = (chosen + rest)[:MAX_REPLAY]
+        not_replayed = [h.fn for h, _ in failing if h.fn not in {c[0].fn for c in chosen}]
+        if chosen:
+            log("%d harness(es) FAILED; extracting counterexamples for %s" % (len(failing), [h.fn for h, _ in chosen]))
+            vmap, plog = core.concrete_values(cwd, [h.full for h, _ in chosen], slot.gen, slot.out,
+                                              package=pkg, extra=plan.kani_extra)
+            items = []
+            for h, new in chosen:
+                if vmap.get(h.full) is None:
+                    inconclusive.append("%s: failed (%s) but no concrete counterexample could be extracted" % (h.fn, new))
+                else:
+                    items.append((h, vmap[h.full], new))
+            if items:
+                dev = do_replays(slot, plan, [(h, v) for h, v, _ in items], release=False)
+                rel = None
+                if plan.native_release or any(v[0] == "PASSED" for v in dev):
+                    rel = do_replays(slot, plan, [(h, v) for h, v, _ in items], release=True)
+                for i, (h, vals, new) in enumerate(items):
+                    verdicts = {"dev": list(dev[i])}
+                    if rel:
+                        verdicts["release"] = list(rel[i])
+                    reproduced = any(x[0] == "REPRODUCED" for x in verdicts.values())
+                    if reproduced and plan.public_replay:
+                        pv, pmsg = plan.public_replay(slot, h, vals)
+                        verdicts["public_api"] = [pv, pmsg]
+                        if pv == "PASSED":
+                            reproduced = False
+                    if reproduced:
+                        path = save_replay(pid, h, vals, new, verdicts, plan)
+                        print("VIOLATION property=%s replay=%s" % (pid, path), flush=True)
+                        log("   %s: %s" % (h.fn, json.dumps(verdicts)))
+                        violations += 1
+                    else:
+                        inconclusive.append("%s: solver counterexample did not reproduce natively: %s" % (h.fn, verdicts))
         for l in known_lines:
             print(l, flush=True)
         wall = time.time() - t0
@@ -262,6 +294,7 @@ def run_check(pid, tier, seed, keep=False, only=None):
             "kani_wall_s": round(meta["wall_s"], 1),
             "exhaustive": False,
             "inconclusive": inconclusive,
+            "failed_not_replayed": not_replayed,
             "known_findings_reported": known_lines,
             "all_harnesses": [{"h": h.fn, "status": results[h.fn].status, "checks": results[h.fn].checks_total,
                                "s": round(results[h.fn].time_s, 1)} for h in plan.harnesses],
@@ -299,7 +332,7 @@ def run_replay(pid, path, keep=False):
         if not hs:
             log("harness %s no longer exists" % blob["fn"])
             return 2
-        v, msg = do_replay(slot, plan, hs[0], blob["concrete_vals"], release=False)
+        v, msg = do_replays(slot, plan, [(hs[0], blob["concrete_vals"])], release=False)[0]
         print("REPLAY %s: %s %s" % (blob["fn"], v, msg))
         if v == "REPRODUCED":
             print("VIOLATION property=%s replay=%s" % (pid, path))
